@@ -717,7 +717,7 @@ fn exec_bg(
                             // on a thread of its own: a rotation thread that died before setting
                             // `ready` makes the next roll (inside append) wait for ever
                             let (a2, m2) = (a.clone(), msg.clone());
-                            let r = run_with_timeout(4, move || {
+                            let r = run_with_timeout(30, move || {
                                 guarded(std::panic::AssertUnwindSafe(|| {
                                     a2.append(&log::Record::builder().level(log::Level::Info).args(format_args!("{}", m2)).build())
                                 }))
